@@ -28,6 +28,15 @@ CHECKS = {
  "C17": ("exploration", "exhaustive enumeration of all 65,025 version/network pairs and every single-character corruption of 40 encodings against a reference BIP276 codec",
          "All (version, network) pairs x prefixes x payload lengths are encoded and decoded and compared with the specified layout; every single-character substitution/insertion/deletion of valid texts must be rejected whenever the reference rejects.",
          "Reference codec in internal/props/c17.go; known findings: field order is network-then-version (pinned by the repository's own test), so texts with version != network fail layout and round trip.", "DESIGN.md §4 C17"),
+ "C16": ("exploration", "exhaustive enumeration of every satoshi amount in a low range plus decimal-boundary amounts, and a product of transaction shapes/signing states, through both JSON dialects",
+         "Every amount 0..2e6 (quick) / 0..1e8 (thorough) and ~8,000 boundary amounts up to 21e14 round-trips through Output/UTXO in both dialects; every transaction of the product space round-trips as Tx, Txs, []Tx, Output, UTXOs with identical serialisation; marshalling never panics.",
+         "Trusted: encoding/json, strconv float formatting.", "DESIGN.md §4 C16"),
+ "C11": ("exploration", "exhaustive bounded enumeration of output-kind combinations, signing states, fee quotes and amount placements around the big-integer reference fee",
+         "Size partition, floor-fee formula and the two sufficiency predicates are compared with a math/big reference on every element; estimate >= signed size is checked over keys x shapes x every pre-signed subset with real signatures; estimators must refuse missing/unsupported spent scripts.",
+         "Reference fee model internal/props/feeref.go; signatures by go-bk.", "DESIGN.md §4 C11"),
+ "C10": ("exploration", "exhaustive bounded enumeration of change scenarios (shapes x destinations x quotes x amount placements) checked against the statement's post-conditions computed with a big-integer reference fee model",
+         "Every scenario of the product space is run through Change/ChangeToAddress/ChangeToExistingOutput and the post-conditions (untouched outputs, no value creation, quoted fee <= fee left <= quoted fee + slack, unchanged only at/below dust) are evaluated on the result.",
+         "Reference fee model internal/props/feeref.go (107-byte placeholder for unsigned P2PKH inputs).", "DESIGN.md §4 C10"),
 }
 
 PENDING_REASON = "check not built yet in this round (planned, see DESIGN.md §4); not claimed until its exhaustive check exists and is quiet on the unchanged tree"
